@@ -30,6 +30,7 @@ CONSTANTS
     Msgs,           \* commit messages (keys)
     Subject(_),     \* message -> its first line
     MaxCommits,     \* bound on the number of commits in one behaviour
+    TZSet,          \* zone offsets (minutes east of UTC) under which commit is explored
     WithId,         \* TRUE: the initial state has a local identity configured
     CfgKeys,        \* set of <<section, key>> that `config` may set ({} = config not explored)
     CfgValues,      \* values for them
@@ -281,7 +282,9 @@ EnvEvents ==
 PathEvents ==
     UNION {IF k \in Cmds THEN {Base(k, "cmd") @@ [paths |-> a] : a \in ArgLists} ELSE {} : k \in {"add", "rm", "restore", "restores"}}
 CommitEvents ==
-    IF "commit" \in Cmds /\ nk < MaxCommits THEN {Base("commit", "cmd") @@ [msg |-> m, msg1 |-> Subject(m)] : m \in Msgs} ELSE {}
+    IF "commit" \in Cmds /\ nk < MaxCommits
+    THEN {[tz |-> z] @@ Base("commit", "cmd") @@ [msg |-> m, msg1 |-> Subject(m)] : m \in Msgs, z \in TZSet}
+    ELSE {}
 ResetEvents ==
     IF "reset" \in Cmds
     THEN {Base("reset", "cmd") @@ [mode |-> m, arg |-> "HEAD@{" \o ToString(n) \o "}", wf |-> TRUE, n |-> n]
